@@ -764,6 +764,9 @@ func setterArgJustified(fn *ssa.Function, call *ssa.Call, kind string) (bool, st
 		if reducedBefore(fn, arg, at, 0) {
 			return true, "argument is the output of reduceSaturated (value < modulus)"
 		}
+		if testedCanonicalBefore(fn, arg, at) {
+			return true, "argument is the source of a reduceSaturated whose flag was tested zero on the way here (value < modulus, left as it is)"
+		}
 		return false, "argument of the unchecked setter is not the output of a dominating reduceSaturated"
 	case "short":
 		return shortJustified(fn, arg, byValue, at, 0)
@@ -1028,6 +1031,61 @@ func reducedBefore(fn *ssa.Function, ptr ssa.Value, at ssa.Instruction, depth in
 				}
 				if returnsReduced(x.Val, depth) {
 					return true
+				}
+			}
+		}
+	}
+	return false
+}
+
+// testedCanonicalBefore: ptr is the *source* (second argument) of a reduceSaturated(dst, src) call with a different
+// destination, the call's flag is compared with 0, and `at` lies in the part of the function that is only reached
+// through the flag == 0 side of that test, with no write to ptr in between: the value was already below the modulus.
+func testedCanonicalBefore(fn *ssa.Function, ptr ssa.Value, at ssa.Instruction) bool {
+	for _, b := range fn.Blocks {
+		for _, in := range b.Instrs {
+			call, ok := in.(*ssa.Call)
+			if !ok {
+				continue
+			}
+			callee := call.Common().StaticCallee()
+			if callee == nil || callee.Name() != "reduceSaturated" || len(call.Common().Args) != 2 || call.Common().Args[1] != ptr || call.Common().Args[0] == ptr {
+				continue
+			}
+			if call.Referrers() == nil {
+				continue
+			}
+			for _, r := range *call.Referrers() {
+				cmp, isCmp := r.(*ssa.BinOp)
+				if !isCmp || cmp.X != ssa.Value(call) {
+					continue
+				}
+				k, isC := cmp.Y.(*ssa.Const)
+				if !isC || k.Value == nil || k.Uint64() != 0 {
+					continue
+				}
+				zeroSide := -1
+				switch cmp.Op {
+				case token.NEQ:
+					zeroSide = 1
+				case token.EQL:
+					zeroSide = 0
+				}
+				if zeroSide < 0 || cmp.Referrers() == nil {
+					continue
+				}
+				for _, rr := range *cmp.Referrers() {
+					ifi, isIf := rr.(*ssa.If)
+					if !isIf {
+						continue
+					}
+					succ := ifi.Block().Succs[zeroSide]
+					if len(succ.Preds) != 1 || !succ.Dominates(at.Block()) {
+						continue
+					}
+					if noWriteBetween(ptr, call, at) {
+						return true
+					}
 				}
 			}
 		}
